@@ -695,7 +695,13 @@ fn run_case(env: &Env, tally: &mut Tally, cl: &Cluster, tablet: Option<(&Cluster
         if rep > 0 && !lwt {
             break; // repetitions only matter where determinism is claimed
         }
-        let plan = catch(AssertUnwindSafe(|| Plan::new(policy, &ri, cluster_state).map(|(n, _shard)| topo::node_index(n.host_id)).collect::<Vec<usize>>()));
+        let cap = topo::node_cap(cl.nodes.len());
+        let plan = catch(AssertUnwindSafe(|| {
+            // capped drain instead of collect(): an endless or absurdly long plan is a complaint, not a hang / allocation
+            let (p, endless) = topo::drain_capped(Plan::new(policy, &ri, cluster_state).map(|(n, _shard)| topo::node_index(n.host_id)), cap);
+            assert!(!endless, "the plan yields more than {cap} targets for {} nodes", cl.nodes.len());
+            p
+        }));
         let plan = match plan {
             Ok(p) => p,
             Err(p) => {
@@ -730,7 +736,12 @@ fn run_case(env: &Env, tally: &mut Tally, cl: &Cluster, tablet: Option<(&Cluster
         }
     }
     // fallback on its own: the same set / order demands, and no duplicate under the plan's own notion
-    let fb = catch(AssertUnwindSafe(|| policy.fallback(&ri, cluster_state).map(|(n, s)| (topo::node_index(n.host_id), s)).collect::<Vec<(usize, Option<u32>)>>()));
+    let fb = catch(AssertUnwindSafe(|| {
+        let cap = topo::node_cap(cl.nodes.len());
+        let (v, endless) = topo::drain_capped(policy.fallback(&ri, cluster_state).map(|(n, s)| (topo::node_index(n.host_id), s)), cap);
+        assert!(!endless, "fallback yields more than {cap} targets for {} nodes", cl.nodes.len());
+        v
+    }));
     match fb {
         Err(p) => report("fallback:panic", format!("fallback panicked at {}: {p}", vcore::last_panic_location())),
         Ok(fb) => {
@@ -800,7 +811,8 @@ fn run_case(env: &Env, tally: &mut Tally, cl: &Cluster, tablet: Option<(&Cluster
                 })
                 .collect();
             install(cl, &b_states);
-            let tail: Vec<usize> = plan.by_ref().map(|(n, _)| topo::node_index(n.host_id)).collect();
+            let (tail, endless) = topo::drain_capped(plan.by_ref().map(|(n, _)| topo::node_index(n.host_id)), topo::node_cap(cl.nodes.len()));
+            assert!(!endless, "the plan does not end");
             let after_end = (plan.next().is_some(), plan.next().is_some());
             (first, b_states, tail, after_end)
         }));
@@ -903,7 +915,7 @@ fn run_cluster(env: &Env, c: &Concrete, absent_dc: &str, topo_rank: u64, legs: &
                 states_list.push((0..n).map(|_| [NodeState::Up, NodeState::Up, NodeState::Down, NodeState::Disabled][rng.below(4) as usize]).collect());
             }
         }
-        let tokens: Vec<i64> = if dims.all_tokens && n <= 4 || cl.space.tokens.len() <= 2 { cl.space.tokens.clone() } else { vec![cl.space.tokens[0], cl.space.tokens[cl.space.tokens.len() / 2], *cl.space.tokens.last().unwrap()] };
+        let tokens: Vec<i64> = if dims.all_tokens && n <= 4 || cl.space.tokens.len() <= 2 { cl.space.tokens.clone() } else if n >= 4 && !dims.all_tokens { vec![cl.space.tokens[0], cl.space.tokens[cl.space.tokens.len() / 2]] } else { vec![cl.space.tokens[0], cl.space.tokens[cl.space.tokens.len() / 2], *cl.space.tokens.last().unwrap()] };
         // policies are independent of node states: build them once
         let mut policies: Vec<(PolicyCfg, Arc<dyn LoadBalancingPolicy>, NodeLocationPreference, &Variant)> = Vec::new();
         for pref in &cl.space.prefs {
@@ -1105,7 +1117,7 @@ fn main() {
     let r = Report::new("C05", "plans", "exploration", "E-ENUM");
     let sink = MinViolations::default();
     let thorough = r.tier().is_thorough();
-    let env = Env { r: &r, sink: &sink, signatures: Mutex::new(BTreeSet::new()), repeats: if thorough { 4 } else { 2 }, extras_upto_nodes: if thorough { 7 } else { 3 } };
+    let env = Env { r: &r, sink: &sink, signatures: Mutex::new(BTreeSet::new()), repeats: if thorough { 4 } else { 1 }, extras_upto_nodes: if thorough { 7 } else { 3 } };
     if let Some(case) = r.replay_case() {
         let env = Env { repeats: 4, ..env };
         replay(&env, &case);
@@ -1234,7 +1246,7 @@ fn main() {
         *by_len.entry(s.len()).or_default() += 1;
     }
     r.note("distinct_signatures_by_plan_length", json!(by_len.iter().map(|(k, v)| (k.to_string(), *v)).collect::<BTreeMap<String, u64>>()));
-    r.set_rule("E-ENUM. evaluations = plans = (topology, node-state assignment, policy configuration, request) cases; each: Plan::new(..) to exhaustion (LWT-routed ones constructed repeatedly), fallback() alone, pick() alone, judged by the set/group oracle. Leg structure: ALL {disabled,down,up}^n x every preference (none, each DC, each DC+rack incl. a non-existent rack, a DC absent from the ring) x failover on/off x {plain, LWT flag} x serial consistency {none, SERIAL, LOCAL_SERIAL} x requests {no token, token without table, unknown keyspace, every strategy of the family x query tokens} on token-aware policies. Leg config: {all up, all down, all disabled, each single node down / disabled} x the same preferences x failover x inherited/own preference x shuffle on/off x token-aware on/off x 5 LWT kinds, plus the serial-consistency field alone / combined with LOCAL_SERIAL consistency / with the LWT flag under an inherited preference; plus, x {plain, LWT}: policies obtained through other entry points (builder with contradicting setters called first, clone of an already used builder, DefaultPolicyBuilder::default(), DefaultPolicy::default()), latency awareness switched on with equal latencies reported for every node (nobody penalised), and the mid-plan history (after the first target its node goes down and every other enabled node flips up<->down: the rest of the plan is judged against the new states; thorough: also on the structure leg). Also two clusters with an empty ring. Group letters: R/L/M live replica in preferred rack / preferred DC / remote, r/l/m live non-replica, d down. Plus the repo's pinned 7-node cluster under few + seeded random (SAMPLED) node-state assignments. distinct_nontrivial = plans with >= 3 targets from >= 2 groups.");
+    r.set_rule("E-ENUM. evaluations = plans = (topology, node-state assignment, policy configuration, request) cases; each: Plan::new(..) to exhaustion (LWT-routed ones constructed repeatedly in the thorough tier and on replay; their replica order is asserted exactly in both tiers), fallback() alone, pick() alone, judged by the set/group oracle. Leg structure: ALL {disabled,down,up}^n x every preference (none, each DC, each DC+rack incl. a non-existent rack, a DC absent from the ring) x failover on/off x {plain, LWT flag} x serial consistency {none, SERIAL, LOCAL_SERIAL} x requests {no token, token without table, unknown keyspace, every strategy of the family x query tokens} on token-aware policies. Leg config: {all up, all down, all disabled, each single node down / disabled} x the same preferences x failover x inherited/own preference x shuffle on/off x token-aware on/off x 5 LWT kinds, plus the serial-consistency field alone / combined with LOCAL_SERIAL consistency / with the LWT flag under an inherited preference; plus, x {plain, LWT}: policies obtained through other entry points (builder with contradicting setters called first, clone of an already used builder, DefaultPolicyBuilder::default(), DefaultPolicy::default()), latency awareness switched on with equal latencies reported for every node (nobody penalised), and the mid-plan history (after the first target its node goes down and every other enabled node flips up<->down: the rest of the plan is judged against the new states; thorough: also on the structure leg). Also two clusters with an empty ring. Group letters: R/L/M live replica in preferred rack / preferred DC / remote, r/l/m live non-replica, d down. Plus the repo's pinned 7-node cluster under few + seeded random (SAMPLED) node-state assignments. distinct_nontrivial = plans with >= 3 targets from >= 2 groups.");
     r.set_exhaustive(true);
     r.assume("the driver's thread RNG (round-robin rotation, replica shuffle, random first replica) is not owned: SAMPLED dimension, every assertion is a set/group property that holds for each of its answers; LWT replica order is asserted exactly because it must not depend on it");
     r.assume("nodes have no sharder (no connection), so every target's shard is 0 / unspecified: 'named twice' = same node twice; fallback() is additionally checked under the plan's own target equality");
